@@ -17,7 +17,7 @@ RULE = ('case = (tree, path pattern AST, flag configuration, api glob|iglob); tr
 ASSUMPTIONS = [
     'reference walker wcverif/walker.py is the documented segment-by-segment meaning; the model of the tree is re-read from the real directory',
     'cyclic / nested directory symlinks are removed from the tree when the flags make `**` follow links (FOLLOW, GLOBSTARLONG)',
-    'Bash comparison: patterns with at least one magic segment, no negation, no empty alternative, no `***`; result paths that cross a symlinked directory are removed from both sides; duplicate separators and the `dir/**` trailing slash are normalised',
+    'Bash comparison: a difference counts only when the reference model does not side with wcmatch (Bash has quirks of its own, e.g. `*?+(*)` vs "a"); patterns with at least one magic segment, no negation, no empty alternative, no `***`; result paths that cross a symlinked directory are removed from both sides; duplicate separators and the `dir/**` trailing slash are normalised',
 ]
 
 CFG_KEYS = ['globstar', 'globstarlong', 'follow', 'dot', 'matchbase', 'mark', 'scandotdir', 'nodotdir', 'icase', 'nodir']
@@ -31,6 +31,8 @@ def shards(tier, seed, scale=1.0):
         out.append({'name': 'walk-%d' % s, 'kind': 'walk', 'seed': seed * 1000 + s, 'n': max(10, int(n * scale))})
     for s in range(8):
         out.append({'name': 'bash-%d' % s, 'kind': 'bash', 'seed': seed * 1000 + 100 + s, 'n': max(6, int(nb * scale))})
+    for ti in range(len(T.CATALOGUE)):
+        out.append({'name': 'literal-%d' % ti, 'kind': 'literal', 'tree': ti})
     return out
 
 
@@ -39,6 +41,8 @@ def run_shard(desc):
         return run_walk(desc)
     if desc['kind'] == 'bash':
         return run_bash(desc)
+    if desc['kind'] == 'literal':
+        return run_literal(desc)
     raise HarnessError(desc['kind'])
 
 
@@ -130,6 +134,51 @@ def run_walk(desc):
     return out
 
 
+def run_literal(desc):
+    """Systematic sweep: for every entry path of a catalogue tree, the path itself as a pattern, with each segment's case
+    swapped, and with each segment replaced by `*` or by a `**`, with and without IGNORECASE."""
+    out = Outcome()
+    out.exhaustive = True
+    armed = desc['armed']
+    spec = T.CATALOGUE[desc['tree']]
+    with FC.built_tree(spec) as (root, _r):
+        model = T.Model(root)
+        entries = [p for p, _d, _l in model.all_entries(follow=False, max_depth=6)]
+        seen = set()
+        for p in entries:
+            parts = p.split('/')
+            variants = [tuple(A.lits(x) for x in parts)]
+            for i in range(len(parts)):
+                sw = list(parts)
+                sw[i] = sw[i].swapcase()
+                variants.append(tuple(A.lits(x) for x in sw))
+                st_ = [A.lits(x) for x in parts]
+                st_[i] = (A.STAR,)
+                variants.append(tuple(st_))
+                gs = [A.lits(x) for x in parts]
+                gs[i] = A.GS
+                variants.append(tuple(gs))
+                q = [A.lits(x) for x in parts]
+                q[i] = (A.lit(parts[i][0]), A.STAR) if parts[i][0] not in '.' else (A.lit('.'), A.STAR)
+                variants.append(tuple(q))
+            for segs in variants:
+                for cfg in ({}, {'icase': True}, {'icase': True, 'globstar': True}, {'globstar': True, 'dot': True}, {'icase': True, 'mark': True}):
+                    for trail in (False, True) if len(segs) <= 2 else (False,):
+                        key = (segs, tuple(sorted(cfg)), trail)
+                        if key in seen:
+                            continue
+                        seen.add(key)
+                        pp = A.PathPat(False, segs, trail, 1)
+                        r = compare(root, pp, cfg, 0, out, armed, stream='literal')
+                        if r is not None and r[0] and len(segs) >= 2:
+                            out.nontrivial((desc['tree'], A.render_path(pp), tuple(sorted(cfg))))
+        for i, (sz, b, c) in enumerate(out.violations):
+            if c.get('tree') is None:
+                c['tree'] = [list(e) for e in spec]
+    out.sample({'stream': 'literal', 'tree_index': desc['tree'], 'entries': len(entries), 'cases': len(seen)})
+    return out
+
+
 def crosses_symlink(root, rel):
     parts = rel.rstrip('/').split('/')
     cur = root
@@ -176,10 +225,22 @@ def run_bash(desc):
             out.evaluations += 1
             out.stats['bash_cases'] += 1
             if a != b:
-                diff = sorted(a ^ b)
+                kw = FC.ref_kwargs(cfg)
+                diff = []
+                for p in sorted(a ^ b):
+                    v = R.path_verdict(pp, p, **kw)
+                    if (p in a and v == R.MUST) or (p not in a and v == R.MUSTNOT):
+                        # the reference sides with wcmatch: a Bash quirk (e.g. `*?+(*)` does not match 'a' in Bash although
+                        # `?+(*)` does), not a disagreement about the shared language
+                        out.stats['bash_quirk_reference_sides_with_wcmatch'] += 1
+                        continue
+                    diff.append(p)
+                if not diff:
+                    if a:
+                        out.nontrivial((tuple(map(tuple, spec)), text, tuple(sorted(cfg)), 'bash'))
+                    return
                 p = diff[0]
                 impl = p in a
-                kw = FC.ref_kwargs(cfg)
                 ids = K.path_classes(pp, p, kw, impl, R.MUSTNOT if impl else R.MUST, text)
                 if impl:
                     ids |= K.bash_either_classes(pp, p, bool(cfg.get('dot')))
